@@ -26,9 +26,9 @@ pub fn ids() -> Vec<&'static str> {
 
 pub fn run(id: &str, tier: &str, seed: u64, threads: usize, histories: Option<u64>, replay: Option<&str>) -> Option<i32> {
     match id {
-        "C10" => Some(run_generic("C10", tier, seed, threads, histories, replay, (20, 500), c10_world, C10_RULE)),
-        "C11" => Some(run_generic("C11", tier, seed, threads, histories, replay, (150, 3000), c11_world, C11_RULE)),
-        "C20" => Some(run_generic("C20", tier, seed, threads, histories, replay, (1500, 30000), c20_world, C20_RULE)),
+        "C10" => Some(run_generic("C10", tier, seed, threads, histories, replay, (20, 1500), c10_world, C10_RULE)),
+        "C11" => Some(run_generic("C11", tier, seed, threads, histories, replay, (150, 10000), c11_world, C11_RULE)),
+        "C20" => Some(run_generic("C20", tier, seed, threads, histories, replay, (1500, 300000), c20_world, C20_RULE)),
         _ => None,
     }
 }
